@@ -458,7 +458,7 @@ fn alnum(rng: &mut Rng, n: usize) -> Vec<u8> {
 fn main() {
     let args = parse_args();
     let mut rng = Rng::new(args.seed);
-    let shard = if args.thorough { 24 } else { 14 };
+    let shard = if args.thorough { 40 } else { 26 };
     let mut sink = Sink::new(&args, "KV.C30.Model", shard);
     sink.import("Coq.Strings.String");
     sink.import("KV.C29.Hash");
@@ -584,7 +584,7 @@ fn main() {
         let pw = short(&mut rng);
         let sl = *rng.pick(&[1usize, 8, 16, 16]);
         let rounds = if th && i == 5 { None } else { Some(rng.range(1000, 1010)) };
-        let n_wrong = if i % 2 == 0 { 0 } else { 1 };
+        let n_wrong = if i % 2 == 0 || rounds.is_none() { 0 } else { 1 };
         let g = Gen::CryptSha { is512: false, rounds, salt: h64salt(&mut rng, sl) };
         gen_case(&mut rng, &mut outs, g, pw, n_wrong, "crypt-sha256", true);
     }
@@ -592,7 +592,7 @@ fn main() {
         let pw = short(&mut rng);
         let sl = *rng.pick(&[2usize, 16, 16]);
         let rounds = if th && i == 3 { None } else { Some(rng.range(1000, 1010)) };
-        let n_wrong = if th && i % 2 == 1 { 1 } else { 0 };
+        let n_wrong = if th && i % 2 == 1 && rounds.is_some() { 1 } else { 0 };
         let g = Gen::CryptSha { is512: true, rounds, salt: h64salt(&mut rng, sl) };
         gen_case(&mut rng, &mut outs, g, pw, n_wrong, "crypt-sha512", true);
     }
@@ -741,7 +741,7 @@ fn main() {
     ] {
         hand(&mut outs, s.to_string(), vec![pwd.clone()], "crypt-rejected", false);
     }
-    // the sha256-crypt hash field is not decodable: sha-crypt's decode_sha256 unwraps -> panic (known class)
+    // the sha256-crypt hash field is not decodable: before /repo a666989 sha-crypt's decode_sha256().unwrap() panicked here
     for s in [
         "{crypt}$5$rounds=1000$saltsalt$***",
         "{crypt}$5$rounds=1000$saltsalt$a",
@@ -752,42 +752,28 @@ fn main() {
         hand(&mut outs, s.to_string(), vec![pwd.clone()], "crypt-sha256-bad-hash-field", false);
     }
 
-    // ---- emit: one slow case at the head of each shard, the rest filled with fast ones
+    // ---- emit: the slow cases are dealt round-robin over the shards, the fast ones fill them up
     let (slow, fast): (Vec<Out>, Vec<Out>) = outs.into_iter().partition(|o| o.slow);
-    let mut slow = slow.into_iter();
-    let mut fast = fast.into_iter().peekable();
-    let emit = |sink: &mut Sink, o: Out| {
-        sink.bump(&o.kind);
-        sink.add_stat("candidates_accepted", o.accepted);
-        sink.add_stat("candidates_rejected", o.rejected);
-        sink.add_stat("candidates_panicked", o.panics);
-        sink.case(o.coq, o.txt, o.nontrivial);
-    };
-    loop {
-        let mut n = 0;
-        if let Some(o) = slow.next() {
-            emit(&mut sink, o);
-            n += 1;
+    let total = slow.len() + fast.len();
+    let nshards = total.div_ceil(shard).max(1);
+    let mut buckets: Vec<Vec<Out>> = (0..nshards).map(|_| vec![]).collect();
+    for (i, o) in slow.into_iter().enumerate() {
+        buckets[i % nshards].push(o);
+    }
+    let mut bi = 0;
+    for o in fast {
+        while buckets[bi].len() >= shard && bi + 1 < nshards {
+            bi += 1;
         }
-        // shards that carry a slow case get fewer fast ones... the Sink cuts at `shard` cases
-        while n < shard {
-            match fast.next() {
-                Some(o) => {
-                    emit(&mut sink, o);
-                    n += 1;
-                }
-                None => break,
-            }
-        }
-        if n == 0 {
-            break;
-        }
-        if n < shard && fast.peek().is_none() {
-            // only slow ones left: pad is impossible, so they share the last shards
-            for o in slow.by_ref() {
-                emit(&mut sink, o);
-            }
-            break;
+        buckets[bi].push(o);
+    }
+    for bucket in buckets {
+        for o in bucket {
+            sink.bump(&o.kind);
+            sink.add_stat("candidates_accepted", o.accepted);
+            sink.add_stat("candidates_rejected", o.rejected);
+            sink.add_stat("candidates_panicked", o.panics);
+            sink.case(o.coq, o.txt, o.nontrivial);
         }
     }
     sink.finish();
